@@ -37,7 +37,9 @@ WdRoot(b) == CASE Blk[b].wdk = "none"  -> NONE
 \* ---- keys: <<type, hash | number>> -------------------------------------------------------------
 KeyTypes == {"hash", "num", "body", "rcpt", "unk"}
 \* x: the key is over-long - selector, the hash / number h, then further bytes (it then denotes nothing)
-Keys == {k \in [t : KeyTypes, h : 0..F, x : BOOLEAN] : k.x => (k.t = "num" /\ k.h # 0)}
+\* x: malformed length with the genuine value embedded - a number key with bytes appended, a hash-carrying key with bytes
+\* inserted between selector and hash
+Keys == {k \in [t : KeyTypes, h : 0..F, x : BOOLEAN] : k.x => (k.t # "unk" /\ k.h # 0)}
 
 \* ---- contents ------------------------------------------------------------------------------------
 \* nc: non-canonical encoding - an empty transactions / withdrawals / receipts list written as a four-byte zero offset table
